@@ -65,6 +65,7 @@ def step (st : St) (op : String) : St × Option String :=
     let fault := (kvGet kv "fault").getD ""
     let ok := if fault == "src-has" then got == "same"
       else if fault == "src-get" then got == "err"
+      else if fault == "src-get-skip" then got != "hang"   -- skipped by design; it must end
       else got == "same" || got == "err"
     (st, some (if ok then "sound" else "UNSOUND"))
   | "upload" :: rest =>
